@@ -346,9 +346,10 @@ fn oracle_fold(dir: &Path) -> Ans {
 	Ans::pass()
 }
 
-fn oracle_perm(req: &Req) -> Ans {
+/// `full` = the replay-only op `oracle-perm-full`: no `WellFormedDir` restriction (witness of the known finding)
+fn oracle_perm(req: &Req, full: bool) -> Ans {
 	let names: Vec<&str> = req.files.iter().map(|f| f.name.as_str()).collect();
-	if !well_formed(&names) { return Ans::out_of_domain(); }
+	if !full && !well_formed(&names) { return Ans::out_of_domain(); }
 	let mut orders: Vec<Vec<&FileSpec>> = Vec::new();
 	let ranked = by_rank(&req.files);
 	orders.push(ranked.clone());
@@ -475,14 +476,14 @@ fn oracle_path_independent(req: &Req, dir: &Path, labels: &Sexp) -> Ans {
 
 fn exec(op: &str, args: &[Sexp]) -> Ans {
 	let (req, labels) = match (op, args) {
-		("vg" | "oracle-fold" | "oracle-perm" | "oracle-names" | "oracle-errors", [b, fs, qs]) => (parse_req(b, fs, qs), None),
+		("vg" | "oracle-fold" | "oracle-perm" | "oracle-perm-full" | "oracle-names" | "oracle-errors", [b, fs, qs]) => (parse_req(b, fs, qs), None),
 		("oracle-path-independent", [b, fs, qs, ls]) => (parse_req(b, fs, qs), Some(ls)),
 		_ => return Ans::BadOp("unknown op".into()),
 	};
 	let req = match req { Ok(r) => r, Err(e) => return Ans::BadOp(e) };
 	// every content must be in the codec domain, whatever the op does with it
 	for f in &req.files { if let Err(e) = f.content.bytes() { return Ans::BadOp(e); } }
-	if op == "oracle-perm" { return oracle_perm(&req); }
+	if op == "oracle-perm" || op == "oracle-perm-full" { return oracle_perm(&req, op == "oracle-perm-full"); }
 	let td = match prepare(&req) { Prepared::Dir(td) => td, Prepared::Skip(w) => return Ans::Skip(w), Prepared::Bad(e) => return Ans::BadOp(e) };
 	match op {
 		"vg" => match vg_answer(&td.0, &req.queries) { Some(s) => Ans::Ok(s), None => Ans::err() },
@@ -787,12 +788,13 @@ fn gen(r: &mut Rng, tier: Tier, out: &mut Out) {
 				r.shuffle(&mut o);
 				let Some(listed) = probe(base, &d.files, &o) else { out.stats.hit("gen:probe-failed"); continue };
 				emit(out, "vg", base, &listed, &d.queries, None);
+				// the cheap oracles run in every listing order (loop detection and path choice depend on it)
+				emit(out, "oracle-fold", base, &listed, &d.queries, None);
+				emit(out, "oracle-errors", base, &listed, &d.queries, None);
 				if first {
 					first = false;
 					classify(out, base, &listed, &d.queries);
-					emit(out, "oracle-fold", base, &listed, &d.queries, None);
 					emit(out, "oracle-names", base, &listed, &d.queries, None);
-					emit(out, "oracle-errors", base, &listed, &d.queries, None);
 					emit(out, "oracle-path-independent", base, &listed, &d.queries, Some(&d.labels));
 					if made % 2 == 0 { emit(out, "oracle-perm", base, &listed, &d.queries, None); }
 				}
